@@ -1,11 +1,12 @@
 #![no_main]
 //! C02: any bytes -> blocking parser, async parser (whole and 1-byte chunks); Ok results are
 //! displayed, re-encoded, traversed, cloned, dropped. The semantic oracle is vcore::oracles::total_core.
+//! A rendering `log` logger is enabled at trace level, so the code inside logging statements runs too.
 use libfuzzer_sys::fuzz_target;
 use std::sync::atomic::{AtomicU64, Ordering};
 static EXECS: AtomicU64 = AtomicU64::new(0);
 static OKS: AtomicU64 = AtomicU64::new(0);
-fuzz_target!(init: { vcore::runner::install_silent_panic_hook(); }, |data: &[u8]| {
+fuzz_target!(init: { vcore::runner::install_silent_panic_hook(); vcore::runner::set_trace_logging(true); }, |data: &[u8]| {
     EXECS.fetch_add(1, Ordering::Relaxed);
     match vcore::oracles::total_core(data) {
         Ok(c) => { if c == "Ok" { OKS.fetch_add(1, Ordering::Relaxed); } }
